@@ -1378,9 +1378,9 @@ class ObjCTypesBackend(ObjCBaseBackend):
                                     attrs = []
                                     for field in route_schema.fields:
                                         attr_key = field.name
-                                        attr_val = ("@\"{}\"".format(route.attrs
-                                                .get(attr_key)) if route.attrs
-                                            .get(attr_key)
+                                        attr_val = ("@\"{}\"".format(escape_string(
+                                            '{}'.format(route.attrs.get(attr_key))))
+                                            if route.attrs.get(attr_key)
                                             else 'nil')
                                         attrs.append('@\"{}\": {}'.format(
                                             attr_key, attr_val))
